@@ -197,6 +197,7 @@ def _getStepAndCycleLengths(cs):
                 cumulativeDays = cycle["cumulative days"]
                 stepLengths.append(getStepsFromValues(cumulativeDays))
             elif "burn steps" in cycleKeys and "cycle length" in cycleKeys:
+                # a cycle may have zero burn steps (a single time node, no at-power time)
                 stepLengths.append(
                     [
                         cycle["cycle length"]
@@ -204,16 +205,22 @@ def _getStepAndCycleLengths(cs):
                         / cycle["burn steps"]
                     ]
                     * cycle["burn steps"]
+                    if cycle["burn steps"]
+                    else []
                 )
             else:
                 raise ValueError(
                     f"No cycle time history is given in the detailed cycles history for cycle {cycleIdx}"
                 )
 
-        cycleLengths = [sum(cycleStepLengths) for cycleStepLengths in stepLengths]
+        # the cycle length is what the user gave, when given; else the at-power time over availability
         cycleLengths = [
-            cycleLength / aFactor
-            for (cycleLength, aFactor) in zip(cycleLengths, availabilityFactors)
+            cycle["cycle length"]
+            if "cycle length" in cycle.keys()
+            else sum(cycleStepLengths) / aFactor
+            for (cycle, cycleStepLengths, aFactor) in zip(
+                cs["cycles"], stepLengths, availabilityFactors
+            )
         ]
 
     else:
